@@ -5,6 +5,10 @@ V = os.path.dirname(os.path.dirname(os.path.abspath(__file__)))
 ids = [json.loads(l)["id"] for l in open(os.path.join(V, "properties.jsonl"))]
 
 CHECKS = {
+ "C03": dict(cat="fault_enumeration", design="§4 C03",
+   technique="property-based fault enumeration: Hypothesis-generated well-typed programs with recorded typed sites x a fixed catalogue of type-breaking edits, rejection/position/no-execution oracle",
+   text="Base programs are assembled from typed snippets in nine syntactic contexts (module, function, closure, method, loop body, else-if arm, else arm, through a type alias, imported module); the control must compile and run; then every applicable fault of the catalogue (value of another kind family, one argument more/fewer, wrong argument family, bare return, value in a void function, undeclared name, unknown member, call of a non-function, index of a non-indexable, non-index index, unsupported operand kinds incl. byte partners) is applied at every recorded site, one mutant per (site, fault): ~65 mutants per program, 320 programs quick / 5 000 thorough. Each mutant must exit with status 1 as a compilation failure, print a `--> file:line:col` diagnostic naming the right source file and the mutated line, and print none of the program's output. Complete over (site x fault) for each generated program; programs are sampled.",
+   note="Faults cross kind families only (numeric promotions, int -> int?, str + any, str/list * int are documented and excluded). The line oracle relies on single-line snippets."),
  "C19": dict(cat="exploration", design="§4 C19", engine="E-cli + E-ffi",
    technique="property-based testing: enumerated + Hypothesis-generated argument vectors through hand-encoded binary bytecode and a probe dynamic library (echo oracle)",
    text="Argument vectors of length 0-6 over int, bigint, float, byte, bool and str (extremes and strings with quotes, backslashes, tabs, newlines, non-ASCII) are pushed by bytecode the harness encodes itself, passed through `call_lib` to a probe dylib built against the working tree's bytecode crate, and the probe prints the slice it received; the four return forms (echo first, echo last, no value, raised error) and the faults missing library / missing symbol are crossed with them. The probe's lines must equal the vector in order, `printn *` after the call must show exactly the returned value, and errors/faults must stop the program with exit status 1, the message on stderr and no later output. Every single value x form and a grid of pairs are enumerated; longer vectors are sampled.",
